@@ -323,6 +323,26 @@ void generate_c08(Rng &r, const GenOpts &g, Plan &p) {
         stream += m;
         if (i + 1 < nmsg || !r.chance(1, 8)) stream += gen_terminator(r);   // sometimes an unterminated tail
     }
+    if (r.chance(1, 8)) {
+        // long tokens and the one situation in which a later byte changes how earlier bytes are read: an open quoted string
+        // (which may hold CR/LF) that a byte >= 0x80 later makes invalid, with few or hundreds of bytes pending in between
+        std::string m = r.chance(1, 2) ? "TEST:TEXT? " : "TEST:ECHO? 1,";
+        char q = r.chance(1, 2) ? '\'' : '"';
+        m += q;
+        long fill = r.chance(1, 2) ? r.range(0, 30) : r.range(200, 520);
+        long nl_at = r.chance(3, 4) ? r.range(0, std::max(0L, fill)) : -1;
+        for (long i = 0; i < fill; i++) {
+            if (i == nl_at) m += r.chance(1, 2) ? "\n" : "\r\n";
+            m += (char) ('a' + r.below(26));
+            if (r.chance(1, 60)) m += ';';
+        }
+        if (r.chance(1, 2)) m += (char) (0x80 + r.below(0x80));   // not allowed in string data: the string becomes invalid
+        if (r.chance(1, 2)) m += std::string(1, q);
+        if (r.chance(1, 3)) m += ";TEST:TREEA?";
+        stream += m;
+        stream += gen_terminator(r);
+        if (r.chance(1, 2)) stream += "TEST:TREEB?\n";
+    }
     p.ops.push_back(Op("stream", {}, stream));
     std::vector<long> cuts;
     switch (r.below(5)) {
@@ -532,7 +552,7 @@ void generate_c09(Rng &r, const GenOpts &g, Plan &p) {
                                        {"ECHO? 1,\"s\",#12ab", "TEST:ECHO? 1,\"s\",#12ab"}, {"INT32? 42", ":TEST:INT32? 42"}, {"OPT?", "TEST:OPT?"},
                                        {"OPT? 5", "TEST:OPT? 5"},        {"TEXT? 'q'", "TEST:TEXT? 'q'"},          {"ARB? #13xyz", "TEST:ARB? #13xyz"},
                                        {"INT32?", "TEST:INT32?"},        {"PART 1,2", "TEST:PART 1,2"},            {"FAIL?", "TEST:FAIL?"},
-                                       {"NUMB? 10 V", "TEST:NUMB? 10 V"}, {"BLKD?", "TEST:BLKD?"}, {"BLKT?", "TEST:BLKT?"}, {"*IDN?", "*IDN?"},                      {":STUB?", "STUB?"}};
+                                       {"NUMB? 10 V", "TEST:NUMB? 10 V"}, {"BLKD?", "TEST:BLKD?"}, {"BLKT?", "TEST:BLKT?"}, {"NULL 1,2", "TEST:NULL 1,2"}, {"NULL?", "TEST:NULL?"}, {"*IDN?", "*IDN?"},                      {":STUB?", "STUB?"}};
         p.knob["unit_mode"] = 1;
         size_t k = r.below(sizeof u2s / sizeof u2s[0]);
         p.ops.push_back(Op("u1", {}, u1s[r.below(sizeof u1s / sizeof u1s[0])]));
